@@ -164,7 +164,7 @@ def oracle(case, canon, obs):
                 bad.append(("marshal-batch-unmarshallable", "%s: caller got %s" % (where, out.get("cls"))))
             else:
                 bad.append(("no-pyro-error-for-unserialisable", "%s: caller got %s (%r) instead of a Pyro error describing %s" % (where, out.get("cls"), text[:120], short)))
-        if k == "fallback" and ("Original exception: %s: %s" % (canon["typerepr"], canon["str"])) not in text:
+        if k == "fallback" and not (canon["typerepr"] in text and canon["str"] in text):
             bad.append(("fallback-does-not-describe-original", "%s: the generic error %r does not name the original class and message (%s: %s)" % (where, text[:160], canon["typerepr"], canon["str"][:80])))
         if k == "fallback" and out["tb"] and out.get("tbtok") != c07impl.expected_token(canon["entry"]):
             bad.extend(tb_violation(where + " (generic error)", out.get("tbtok") or "TB:?@?", canon, case))
